@@ -10,6 +10,9 @@
 //     the size it was requested with; the ledger must be empty when all objects of a case are gone
 //   * every raw C-string / byte operand is handed over in an exact-size heap block (ASan red zones)
 //   * ASan/UBSan build
+#ifdef VF_MEMCHECK
+#include <valgrind/memcheck.h>
+#endif
 #include "verif.h"
 #include <string>
 #include <vector>
@@ -139,6 +142,9 @@ struct RecAlloc : public TestMemoryAllocator {
         char* p = (char*) malloc(size);
         if (!p) return nullptr;
         memset(p, 0xA5, size);          // junk without a NUL: a missing terminator runs into the red zone
+#ifdef VF_MEMCHECK
+        VALGRIND_MAKE_MEM_UNDEFINED(p, size);   // ... and, under memcheck, any use of a byte SimpleString has not written is reported
+#endif
         live[p] = Ent{ size, line }; bytes += size;
         if (live.size() > max_live) max_live = live.size();
         return p;
@@ -164,7 +170,11 @@ static RecAlloc* g_rec;
 // "terminates": a CPU-time budget per case (ITIMER_VIRTUAL counts only this process' own user time, so machine load does not matter).
 // A case needs micro- to milliseconds; one that has burnt CPU_LIMIT_S seconds is reported as non-terminating and the process leaves
 // (the driver resumes after the case). A case that blocks without using CPU is left to the driver's progress watchdog.
+#ifdef VF_MEMCHECK
+static const int CPU_LIMIT_S = 240;     // valgrind runs the same case 20-50 times slower
+#else
 static const int CPU_LIMIT_S = 5;
+#endif
 static void on_cpu_limit(int) {
     if (g_c) g_c->violation("non-termination:" + g_opname, "the case used " + std::to_string(CPU_LIMIT_S) + " s of CPU time without finishing (a normal case takes milliseconds)");
     _exit(87);
